@@ -9,6 +9,7 @@ import (
 	"bytes"
 	"encoding/json"
 	"fmt"
+	"time"
 
 	"verifharness/hlib"
 	. "verifharness/hlib"
@@ -63,6 +64,37 @@ func run(c *Ctx) {
 	for _, cs := range corpus() {
 		emit(cs)
 	}
+	// siblings: b := parent.Output(w); both b and parent then grow their context through UpdateContext
+	nf := 40
+	if c.Thorough() {
+		nf = 600
+	}
+	for i := 0; i < nf; i++ {
+		g := &progs.Gen{R: c.R.Fork()}
+		st := g.GenSettings()
+		g.S, g.Now = st, time.Unix(1700000000, 0).UTC()
+		var parent []progs.Step
+		for k := 1 + g.R.Intn(2); k > 0; k-- {
+			parent = append(parent, progs.Step{Cops: noHooks(g.GenCopsPublic(2, 3))})
+		}
+		u1, u2 := noHooks(g.GenCopsPublic(1, 3)), noHooks(g.GenCopsPublic(1, 3))
+		obs := progs.RunOutputFork(st, g.Now, parent, u1, u2, 1, nil, []byte("fork"))
+		for j, u := range [][]progs.Cop{u1, u2} {
+			cs := &progs.Case{S: st, Now: g.Now, Steps: append(append([]progs.Step{}, parent...), progs.Step{Update: true, Cops: u}), Level: 1, Msg: []byte("fork")}
+			o := obs[j]
+			if o.Panic != nil {
+				c.Violate(Violation{Key: "logging-call-panicked", Monitor: "no-panic", Desc: fmt.Sprintf("panic: %v", o.Panic), Case: cs.Describe()})
+				continue
+			}
+			c.AddCase(cs.Coq(o), map[string]interface{}{"fork": j, "case": cs.Describe()})
+			if o.Written {
+				if _, err := oracle.CheckEventLine(o.Line); err != nil {
+					c.Violate(Violation{Key: "event-not-wellformed", Monitor: "rfc8259-validator", Desc: "after b := parent.Output(w); b.UpdateContext(..); parent.UpdateContext(..): " + err.Error(), Case: cs.Describe(), Observed: fmt.Sprintf("%q", o.Line)})
+				}
+			}
+			c.Count(cs.Coq(o), true)
+		}
+	}
 	switch c.Prop {
 	case "C02":
 		n /= 3
@@ -75,6 +107,16 @@ func run(c *Ctx) {
 		g := &progs.Gen{R: c.R.Fork()}
 		emit(g.GenCase(3))
 	}
+}
+
+func noHooks(cs []progs.Cop) []progs.Cop {
+	var out []progs.Cop
+	for _, x := range cs {
+		if x.K != "hook" && x.K != "timestamp" && x.K != "reset" {
+			out = append(out, x)
+		}
+	}
+	return out
 }
 
 // C03: hooks attached along the derivation run exactly once each, ancestors first, in registration order
